@@ -1209,7 +1209,9 @@ async def traverse_resource(
             raise AssertionError(f"invalid depth {depth!r}")
         if COLLECTION_RESOURCE_TYPE in resource.resource_types:
             for child_name, child_resource in members_fn(resource):
-                child_href = urllib.parse.urljoin(href, child_name)
+                # child_name is a file name, not a URL reference: '?', '#' and
+                # surrounding white space are part of it.
+                child_href = ensure_trailing_slash(href) + child_name
                 todo.append((child_href, child_resource, nextdepth))
 
 
